@@ -51,9 +51,19 @@ enum Op {
     VBuild,
     KPut(u64, u64, i64, Option<i64>),
     KDel(u64, u64),
-    Ckpt,
+    /// checkpoint; `Some(code)` = an explicit name (see `Sys::code_str`), `None` = the unique name `c<n>`
+    Ckpt(Option<u64>),
+    /// `ROLLBACK TO <code>`: the target string is an id or a name
     Rollback(u64),
+    /// `CheckpointManager::delete(<code>)`
+    CkDel(u64),
+    /// `CHECKPOINTS LIMIT n`
+    CkTop(u64),
 }
+
+/// ids and names are strings of one space, coded for the model: code < 1000 = the id string of
+/// checkpoint number `code`, code >= 1000 = the proper name `c<code-1000>`
+const NAME0: u64 = 1000;
 
 impl Op {
     fn tag(&self) -> &'static str {
@@ -73,8 +83,17 @@ impl Op {
             Op::VBuild => "vbuild",
             Op::KPut(..) => "kput",
             Op::KDel(..) => "kdel",
-            Op::Ckpt => "ckpt",
-            Op::Rollback(_) => "rollback",
+            Op::Ckpt(None) => "ckpt",
+            Op::Ckpt(Some(_)) => "ckpt_named",
+            Op::Rollback(c) => {
+                if *c < NAME0 {
+                    "rollback_by_id"
+                } else {
+                    "rollback"
+                }
+            }
+            Op::CkDel(_) => "ckdel",
+            Op::CkTop(_) => "cktop",
         }
     }
     /// the model line (checkpoint lines are built by the caller: they need ts / ord)
@@ -98,8 +117,11 @@ impl Op {
                 e.map_or("-".to_string(), |e| e.to_string())
             ),
             Op::KDel(c, k) => format!("kdel {c} {k}"),
-            Op::Ckpt => "ckpt".into(),
-            Op::Rollback(i) => format!("rollback {i}"),
+            Op::Ckpt(None) => "ckpt".into(),
+            Op::Ckpt(Some(c)) => format!("ckpt name={c}"),
+            Op::Rollback(c) => format!("rollback {c} -"),
+            Op::CkDel(c) => format!("ckdel {c} -"),
+            Op::CkTop(n) => format!("cktop {n}"),
         }
     }
 }
@@ -159,6 +181,8 @@ struct Sys {
     max: usize,
     /// model checkpoint id -> real checkpoint id (uuid or harness-made)
     ck_real: BTreeMap<u64, String>,
+    /// model checkpoint id -> (name code, harness timestamp)
+    ck_meta: BTreeMap<u64, (u64, u64)>,
     next_ck: u64,
 }
 
@@ -175,7 +199,7 @@ impl Sys {
             )
             .expect("init_checkpoint");
         let rt = tokio::runtime::Builder::new_current_thread().enable_all().build().unwrap();
-        Sys { router, rt, max, ck_real: BTreeMap::new(), next_ck: 0 }
+        Sys { router, rt, max, ck_real: BTreeMap::new(), ck_meta: BTreeMap::new(), next_ck: 0 }
     }
     fn store(&self) -> &TensorStore {
         self.router.vector().store()
@@ -282,18 +306,39 @@ impl Sys {
                 #[allow(unreachable_patterns)]
                 Err(e) => format!("err other:{e:?}"),
             },
-            Op::Ckpt | Op::Rollback(_) => unreachable!("handled by the stream"),
+            Op::Ckpt(_) | Op::Rollback(_) | Op::CkDel(_) | Op::CkTop(_) => unreachable!("handled by the stream"),
         }
     }
 
-    /// `CHECKPOINT 'cN'` through the router text API
-    fn checkpoint_router(&mut self) -> (u64, String) {
+    /// the string a target / name code stands for
+    fn code_str(&self, code: u64) -> String {
+        if code >= NAME0 {
+            format!("c{}", code - NAME0)
+        } else {
+            self.ck_real.get(&code).cloned().unwrap_or_else(|| format!("hid-{code}"))
+        }
+    }
+
+    /// `CHECKPOINT '<name>'` through the router text API; `created_at` is the wall clock: the
+    /// value the listing reports is handed to the model (fallback `ts` if retention dropped it)
+    fn checkpoint_router(&mut self, name: u64, ts: u64) -> (u64, String) {
         let n = self.next_ck;
         self.next_ck += 1;
-        match self.router.execute_parsed(&format!("CHECKPOINT 'c{n}'")) {
+        let name_s = self.code_str(name);
+        match self.router.execute_parsed(&format!("CHECKPOINT '{name_s}'")) {
             Ok(QueryResult::Value(s)) => {
                 let id = s.rsplit(' ').next().unwrap_or("").to_string();
+                let blob = self.router.blob().expect("blob").clone();
+                let real_ts = self
+                    .rt
+                    .block_on(async {
+                        let b = blob.lock().await;
+                        CheckpointStorage::list(&b).await
+                    })
+                    .ok()
+                    .and_then(|l| l.iter().find(|c| c.id == id).map(|c| c.created_at));
                 self.ck_real.insert(n, id);
+                self.ck_meta.insert(n, (name, real_ts.unwrap_or(ts)));
                 (n, format!("id {n}"))
             }
             Ok(other) => (n, format!("err other:{other:?}")),
@@ -302,15 +347,16 @@ impl Sys {
     }
 
     /// what `CheckpointManager::create` does, with the harness clock for `created_at`
-    fn checkpoint_manager(&mut self, ts: u64) -> (u64, String) {
+    fn checkpoint_manager(&mut self, name: u64, ts: u64) -> (u64, String) {
         let n = self.next_ck;
         self.next_ck += 1;
+        let name_s = self.code_str(name);
         let store = self.store().clone();
         let bytes = match store.snapshot_bytes() {
             Ok(b) => b,
             Err(e) => return (n, format!("err other:{e:?}")),
         };
-        let mut state = CheckpointState::new(format!("hid-{n}"), format!("c{n}"), bytes, CheckpointMetadata::default());
+        let mut state = CheckpointState::new(format!("hid-{n}"), name_s, bytes, CheckpointMetadata::default());
         state.created_at = ts;
         let blob = self.router.blob().expect("blob").clone();
         let max = self.max;
@@ -322,14 +368,16 @@ impl Sys {
         match r {
             Ok(_) => {
                 self.ck_real.insert(n, format!("hid-{n}"));
+                self.ck_meta.insert(n, (name, ts));
                 (n, format!("id {n}"))
             }
             Err(e) => (n, format!("err other:{e:?}")),
         }
     }
 
-    fn rollback(&self, n: u64) -> String {
-        match self.router.execute_parsed(&format!("ROLLBACK TO 'c{n}'")) {
+    fn rollback(&self, code: u64) -> String {
+        let target = self.code_str(code);
+        match self.router.execute_parsed(&format!("ROLLBACK TO '{target}'")) {
             Ok(_) => "ok".into(),
             Err(e) => {
                 let s = e.to_string();
@@ -342,18 +390,46 @@ impl Sys {
         }
     }
 
-    /// model ids of the checkpoints `CHECKPOINTS` lists, with sizes
+    /// `CheckpointManager::delete(id_or_name)` on the router's own manager
+    fn ckdel(&self, code: u64) -> String {
+        let target = self.code_str(code);
+        let mgr = self.router.checkpoint().expect("checkpoint manager").clone();
+        let r = self.rt.block_on(async {
+            let m = mgr.lock().await;
+            m.delete(&target).await
+        });
+        match r {
+            Ok(()) => "ok".into(),
+            Err(tensor_checkpoint::CheckpointError::NotFound(_)) => "err notfound".into(),
+            Err(e) => format!("err other:{e}"),
+        }
+    }
+
+    /// `CHECKPOINTS LIMIT n` through the router text API: model ids in the order answered
+    fn cktop(&self, n: u64) -> Result<Vec<u64>, String> {
+        match self.router.execute_parsed(&format!("CHECKPOINTS LIMIT {n}")) {
+            Ok(QueryResult::CheckpointList(l)) => {
+                let rev: HashMap<&String, u64> = self.ck_real.iter().map(|(k, v)| (v, *k)).collect();
+                l.iter().map(|c| rev.get(&c.id).copied().ok_or_else(|| format!("unknown id {}", c.id))).collect()
+            }
+            Ok(other) => Err(format!("other:{other:?}")),
+            Err(e) => Err(format!("{e}")),
+        }
+    }
+
+    /// model ids of the checkpoints the storage lists (in listing order), with sizes
     fn live(&self) -> Vec<(u64, usize)> {
         let blob = self.router.blob().expect("blob").clone();
         let list = self.rt.block_on(async {
             let b = blob.lock().await;
             CheckpointStorage::list(&b).await
         });
+        let rev: HashMap<&String, u64> = self.ck_real.iter().map(|(k, v)| (v, *k)).collect();
         let mut out = vec![];
         if let Ok(list) = list {
             for cp in list {
-                if let Some(n) = cp.name.strip_prefix('c').and_then(|s| s.parse::<u64>().ok()) {
-                    out.push((n, cp.size));
+                if let Some(n) = rev.get(&cp.id) {
+                    out.push((*n, cp.size));
                 }
             }
         }
@@ -364,11 +440,36 @@ impl Sys {
         v.sort_unstable();
         v
     }
+    /// the checkpoint a target string must resolve to by the documented rule (newest listed
+    /// checkpoint whose id or name is the string), computed from the harness's own bookkeeping:
+    /// Ok(None) = nothing matches, Err(()) = several newest matches share a timestamp (hash order
+    /// decides; not predictable)
+    fn expected_target(&self, code: u64, live: &[u64]) -> Result<Option<u64>, ()> {
+        let cands: Vec<(u64, u64)> = live
+            .iter()
+            .filter_map(|i| {
+                let (nm, ts) = self.ck_meta.get(i)?;
+                if *i == code || *nm == code {
+                    Some((*i, *ts))
+                } else {
+                    None
+                }
+            })
+            .collect();
+        let Some(best) = cands.iter().map(|c| c.1).max() else { return Ok(None) };
+        let top: Vec<u64> = cands.iter().filter(|c| c.1 == best).map(|c| c.0).collect();
+        if top.len() == 1 {
+            Ok(Some(top[0]))
+        } else {
+            Err(())
+        }
+    }
     fn loadable(&self, n: u64) -> bool {
         let blob = self.router.blob().expect("blob").clone();
+        let id = self.code_str(n);
         self.rt.block_on(async {
             let b = blob.lock().await;
-            CheckpointStorage::load(&format!("c{n}"), &b).await.is_ok()
+            CheckpointStorage::load(&id, &b).await.is_ok()
         })
     }
 
@@ -657,9 +758,25 @@ struct Gen {
     edges_hi: u64,
 }
 
-fn gen_op(r: &mut Rng, g: &mut Gen, n_ck: u64, raw_mix: bool) -> Op {
+/// names shared by several checkpoints (manager mode: the harness clock orders them)
+const SHARED_NAMES: [u64; 2] = [NAME0 + 50, NAME0 + 51];
+
+fn gen_target(r: &mut Rng, n_ck: u64, mode: Mode) -> u64 {
+    if r.chance(1, 12) {
+        // nothing of that id / name (or not yet)
+        if r.chance(1, 2) { NAME0 + n_ck + r.below(2) } else { n_ck + r.below(2) }
+    } else if r.chance(1, 4) {
+        r.below(n_ck) // by id
+    } else if mode == Mode::Manager && r.chance(1, 4) {
+        SHARED_NAMES[r.below(2) as usize]
+    } else {
+        NAME0 + r.below(n_ck) // by its own name
+    }
+}
+
+fn gen_op(r: &mut Rng, g: &mut Gen, n_ck: u64, raw_mix: bool, mode: Mode) -> Op {
     let t = r.below(g.tables);
-    let w = r.below(100);
+    let w = r.below(104);
     match w {
         0..=5 => Op::RCreate(t),
         6..=7 => Op::RDrop(t),
@@ -702,14 +819,25 @@ fn gen_op(r: &mut Rng, g: &mut Gen, n_ck: u64, raw_mix: bool) -> Op {
             let cls = if raw_mix { r.below(3) } else { r.below(2) };
             Op::KDel(cls, if cls == 2 { 5 + r.below(3) } else { r.below(4) })
         }
-        87..=92 => Op::Ckpt,
+        87..=92 => {
+            if mode == Mode::Manager && r.chance(1, 3) {
+                if n_ck > 0 && r.chance(1, 6) {
+                    // named with the id string of an earlier checkpoint
+                    Op::Ckpt(Some(r.below(n_ck)))
+                } else {
+                    Op::Ckpt(Some(SHARED_NAMES[r.below(2) as usize]))
+                }
+            } else {
+                Op::Ckpt(None)
+            }
+        }
+        100..=101 if n_ck > 0 => Op::CkDel(gen_target(r, n_ck, mode)),
+        102..=103 if n_ck > 0 => Op::CkTop(r.below(4)),
         _ => {
             if n_ck == 0 {
-                Op::Ckpt
-            } else if r.chance(1, 12) {
-                Op::Rollback(n_ck + r.below(2))
+                Op::Ckpt(None)
             } else {
-                Op::Rollback(r.below(n_ck))
+                Op::Rollback(gen_target(r, n_ck, mode))
             }
         }
     }
@@ -728,18 +856,21 @@ fn run_case(ctx: &mut Ctx, m: &mut Model, stream: &str, mode: Mode, max: usize, 
     let mut state_changes = 0;
     let mut ok_results = 0;
     let mut after_rollback = false;
+    let mut shadow_noted = false;
     for op in ops {
         if record {
             ctx.rep.hit(&format!("op:{}", op.tag()));
         }
         let (imp, model_line) = match op {
-            Op::Ckpt => {
+            Op::Ckpt(name) => {
                 // the harness-side snapshot oracle: the real image at checkpoint time
                 let before = sys.image();
                 let live_before = sys.live_ids();
                 let ts = tss.get(ck_i).copied().unwrap_or(1000 + ck_i as u64);
                 ck_i += 1;
-                let (n, ans) = if mode == Mode::Router { sys.checkpoint_router() } else { sys.checkpoint_manager(ts) };
+                let name = name.unwrap_or(NAME0 + sys.next_ck);
+                let (n, ans) =
+                    if mode == Mode::Router { sys.checkpoint_router(name, ts) } else { sys.checkpoint_manager(name, ts) };
                 oracle.insert(n, before);
                 let live_after = sys.live_ids();
                 // the by_tag order is a hash-set order: reconstruct one consistent with what was kept
@@ -788,12 +919,103 @@ fn run_case(ctx: &mut Ctx, m: &mut Model, stream: &str, mode: Mode, max: usize, 
                         }
                     }
                 }
-                (ans, format!("ckpt {ts} {}", nats(&ord)))
+                let ts = sys.ck_meta.get(&n).map_or(ts, |m| m.1);
+                (ans, format!("ckpt {ts} {} {name}", nats(&ord)))
             }
-            Op::Rollback(n) => {
+            Op::CkDel(code) => {
                 let live_before = sys.live_ids();
-                let ans = sys.rollback(*n);
+                let exp = match sys.expected_target(*code, &live_before) {
+                    Ok(e) => e,
+                    Err(()) => {
+                        ctx.rep.hit("ambiguous_target_skipped");
+                        continue;
+                    }
+                };
+                let img_before = sys.image();
+                let ans = sys.ckdel(*code);
+                let live_after = sys.live_ids();
+                let want: Vec<u64> = live_before.iter().copied().filter(|i| Some(*i) != exp).collect();
+                let ok_expected = exp.is_some();
+                if (ans == "ok") != ok_expected || live_after != want || sys.image() != img_before {
+                    violated = true;
+                    ctx.violation(
+                        "tensor_checkpoint.delete/wrong_checkpoint_deleted",
+                        &format!("delete of target code {code} answered {ans}; listed before {live_before:?}, after {live_after:?}, expected to remove {exp:?} only and leave the data untouched"),
+                        json!({"stream": stream, "ops": trace.clone(), "target": code}),
+                    );
+                }
+                for k in &live_after {
+                    if !sys.loadable(*k) {
+                        violated = true;
+                        ctx.violation(
+                            "tensor_checkpoint.delete/retained_not_loadable",
+                            &format!("checkpoint c{k} is listed after a delete of another one but cannot be loaded"),
+                            json!({"stream": stream, "ops": trace.clone(), "target": code}),
+                        );
+                    }
+                }
+                (ans, op.line())
+            }
+            Op::CkTop(n) => {
+                let live_before = sys.live_ids();
+                match sys.cktop(*n) {
+                    Ok(ids) => {
+                        let ts_of = |i: &u64| sys.ck_meta.get(i).map(|m| m.1).unwrap_or(0);
+                        let shown_min = ids.iter().map(ts_of).min();
+                        let hidden_max = live_before.iter().filter(|i| !ids.contains(i)).map(ts_of).max();
+                        let sorted = ids.windows(2).all(|w| ts_of(&w[0]) >= ts_of(&w[1]));
+                        let mut uniq = ids.clone();
+                        uniq.sort_unstable();
+                        uniq.dedup();
+                        let bad_count = ids.len() != live_before.len().min(*n as usize) || uniq.len() != ids.len();
+                        let bad_member = ids.iter().any(|i| !live_before.contains(i));
+                        let bad_order = !sorted || matches!((shown_min, hidden_max), (Some(a), Some(b)) if b > a);
+                        if bad_count || bad_member || bad_order {
+                            violated = true;
+                            ctx.violation(
+                                "tensor_checkpoint.list/limit_not_newest",
+                                &format!("CHECKPOINTS LIMIT {n} answered {ids:?} with {live_before:?} listed (count / membership / newest-first order wrong)"),
+                                json!({"stream": stream, "ops": trace.clone(), "limit": n, "ts": tss}),
+                            );
+                        }
+                        (nats(&ids), format!("cktop {n} {}", nats(&ids)))
+                    }
+                    Err(e) => (format!("err other:{e}"), format!("cktop {n} -")),
+                }
+            }
+            Op::Rollback(code) => {
+                let live_before = sys.live_ids();
+                let exp = match sys.expected_target(*code, &live_before) {
+                    Ok(e) => e,
+                    Err(()) => {
+                        ctx.rep.hit("ambiguous_target_skipped");
+                        continue;
+                    }
+                };
+                let n = &exp.unwrap_or(u64::MAX);
+                let ans = sys.rollback(*code);
+                if (ans == "ok") != exp.is_some() {
+                    violated = true;
+                    ctx.violation(
+                        "query_router.rollback/target_resolution",
+                        &format!("ROLLBACK TO target code {code} answered {ans} while the newest listed checkpoint with that id or name is {exp:?} (listed: {live_before:?})"),
+                        json!({"stream": stream, "ops": trace.clone(), "target": code}),
+                    );
+                }
                 if ans == "ok" {
+                    if let Some(e) = exp {
+                        if e != *code && *code < NAME0 {
+                            ctx.rep.hit("rollback:id_shadowed_by_name");
+                            if live_before.contains(code) && !shadow_noted {
+                                shadow_noted = true;
+                                ctx.rep.observe(json!({"class": "tensor_checkpoint.storage/id_shadowed_by_name",
+                                    "what": format!("checkpoint number {code} is listed, but ROLLBACK TO its id restores checkpoint number {e}, whose NAME is that id string and which is newer (find_by_id_or_name takes the first listing entry matching either field)"),
+                                    "stream": stream, "ops": trace.clone()}));
+                            }
+                        } else if *code >= NAME0 && *code != NAME0 + e {
+                            ctx.rep.hit("rollback:by_shared_or_foreign_name");
+                        }
+                    }
                     after_rollback = true;
                     let now = sys.image();
                     if let Some(then) = oracle.get(n) {
@@ -813,16 +1035,16 @@ fn run_case(ctx: &mut Ctx, m: &mut Model, stream: &str, mode: Mode, max: usize, 
                         violated = true;
                         ctx.violation(
                             "query_router.rollback/checkpoints_lost_after_rollback",
-                            &format!("checkpoints {lost:?} were listed before ROLLBACK TO 'c{n}' and are gone after it (the checkpoint blobs live in the store that is wiped and restored; c{n} itself and everything newer are not in its own snapshot)"),
+                            &format!("checkpoints {lost:?} were listed before ROLLBACK TO checkpoint number {n} and are gone after it (the checkpoint blobs live in the store that is wiped and restored; the checkpoint itself and everything newer are not in its own snapshot)"),
                             json!({"stream": stream, "ops": trace.clone(), "rollback_to": n, "listed_before": live_before, "listed_after": live_after}),
                         );
                     }
-                } else if live_before.contains(n) {
+                } else if live_before.contains(code) {
                     violated = true;
                     ctx.violation(
                         "query_router.rollback/retained_checkpoint_not_restorable",
-                        &format!("c{n} is listed but ROLLBACK fails: {ans}"),
-                        json!({"stream": stream, "ops": trace.clone(), "rollback_to": n}),
+                        &format!("checkpoint number {code} is listed but ROLLBACK TO its id fails: {ans}"),
+                        json!({"stream": stream, "ops": trace.clone(), "rollback_to": code}),
                     );
                 }
                 (ans, op.line())
@@ -854,7 +1076,13 @@ fn run_case(ctx: &mut Ctx, m: &mut Model, stream: &str, mode: Mode, max: usize, 
         }
         if record {
             let tagw: Vec<&str> = imp.split(|c| c == ' ' || c == ':').collect();
-            let tag = if tagw[0] == "err" { format!("err {}", tagw.get(1).unwrap_or(&"")) } else { tagw[0].to_string() };
+            let tag = if matches!(op, Op::CkTop(_)) && tagw[0] != "err" {
+                "list".to_string()
+            } else if tagw[0] == "err" {
+                format!("err {}", tagw.get(1).unwrap_or(&""))
+            } else {
+                tagw[0].to_string()
+            };
             ctx.rep.hit(&format!("res:{tag}"));
         }
         trace.push(model_line.clone());
@@ -902,8 +1130,8 @@ fn stream_router(ctx: &mut Ctx, m: &mut Model, rng: &Rng, cases: usize, mode: Mo
         let mut n_ck = 0u64;
         let raw_mix = r.chance(1, 3);
         for _ in 0..len {
-            let op = gen_op(&mut r, &mut g, n_ck, raw_mix);
-            if op == Op::Ckpt {
+            let op = gen_op(&mut r, &mut g, n_ck, raw_mix, mode);
+            if matches!(op, Op::Ckpt(_)) {
                 if mode == Mode::Router && n_ck >= 5 {
                     continue;
                 }
@@ -941,23 +1169,44 @@ fn stream_router(ctx: &mut Ctx, m: &mut Model, rng: &Rng, cases: usize, mode: Mo
 
 /// hand-written scenarios = the Lean witnesses, replayed on the real code (also run first)
 fn stream_witness(ctx: &mut Ctx, m: &mut Model) {
+    const CK: Op = Op::Ckpt(None);
+    let rb = |n: u64| Op::Rollback(NAME0 + n);
     let cases: Vec<(&str, Vec<Op>)> = vec![
-        ("tables_lost", vec![Op::RCreate(0), Op::RIns(0, 1, 2), Op::Ckpt, Op::Rollback(0), Op::RIns(0, 1, 1)]),
-        ("tables_lost_indexed", vec![Op::RCreate(0), Op::RHidx(0), Op::RBidx(0), Op::RIns(0, 1, 2), Op::Ckpt, Op::RIns(0, 2, 0), Op::Rollback(0)]),
-        ("stale_label_index", vec![Op::GNode(1), Op::Ckpt, Op::GDelN(1), Op::Rollback(0)]),
-        ("stale_hnsw", vec![Op::VPut(0, vec![1, 0, 0]), Op::Ckpt, Op::VPut(1, vec![0, 1, 0]), Op::VBuild, Op::Rollback(0)]),
-        ("later_checkpoint_lost", vec![Op::KPut(0, 0, 1, None), Op::Ckpt, Op::KPut(0, 0, 2, None), Op::Ckpt, Op::Rollback(0), Op::Rollback(1)]),
-        ("rollback_twice", vec![Op::KPut(0, 0, 1, None), Op::Ckpt, Op::KPut(0, 0, 2, None), Op::Rollback(0), Op::KPut(0, 0, 3, None), Op::Rollback(0)]),
-        ("graph_roundtrip", vec![Op::GNode(0), Op::GNode(1), Op::GEdge(1, 2), Op::Ckpt, Op::GDelE(1), Op::GNode(2), Op::GEdge(2, 3), Op::Rollback(0), Op::GNode(2), Op::GEdge(1, 4)]),
-        ("vector_roundtrip", vec![Op::VPut(0, vec![1, 2, 3]), Op::VPut(1, vec![0, 0, 1]), Op::Ckpt, Op::VDel(0), Op::VPut(2, vec![1, 1, 1]), Op::Rollback(0), Op::VPut(3, vec![2, 2, 2])]),
-        ("raw_roundtrip", vec![Op::KPut(0, 1, 5, None), Op::KPut(1, 1, 6, None), Op::KPut(2, 5, 7, Some(3)), Op::KPut(2, 6, 7, None), Op::Ckpt, Op::KDel(0, 1), Op::KDel(1, 1), Op::KPut(2, 5, 8, None), Op::KPut(2, 6, 1, Some(2)), Op::Rollback(0)]),
-        ("drop_then_rollback", vec![Op::RCreate(1), Op::RIns(1, 0, 0), Op::Ckpt, Op::RDrop(1), Op::Rollback(0), Op::RCreate(1), Op::RDrop(1), Op::RCreate(1), Op::RIns(1, 3, 3)]),
-        ("stale_btree_after_recreate", vec![Op::Ckpt, Op::RCreate(0), Op::RBidx(0), Op::RIns(0, 1, 1), Op::RIns(0, 2, 2), Op::Rollback(0), Op::RCreate(0), Op::RBidx(0), Op::RIns(0, 3, 0)]),
+        ("tables_lost", vec![Op::RCreate(0), Op::RIns(0, 1, 2), CK, rb(0), Op::RIns(0, 1, 1)]),
+        ("tables_lost_indexed", vec![Op::RCreate(0), Op::RHidx(0), Op::RBidx(0), Op::RIns(0, 1, 2), CK, Op::RIns(0, 2, 0), rb(0)]),
+        ("stale_label_index", vec![Op::GNode(1), CK, Op::GDelN(1), rb(0)]),
+        ("stale_hnsw", vec![Op::VPut(0, vec![1, 0, 0]), CK, Op::VPut(1, vec![0, 1, 0]), Op::VBuild, rb(0)]),
+        ("later_checkpoint_lost", vec![Op::KPut(0, 0, 1, None), CK, Op::KPut(0, 0, 2, None), CK, rb(0), rb(1)]),
+        ("rollback_twice", vec![Op::KPut(0, 0, 1, None), CK, Op::KPut(0, 0, 2, None), rb(0), Op::KPut(0, 0, 3, None), rb(0)]),
+        ("graph_roundtrip", vec![Op::GNode(0), Op::GNode(1), Op::GEdge(1, 2), CK, Op::GDelE(1), Op::GNode(2), Op::GEdge(2, 3), rb(0), Op::GNode(2), Op::GEdge(1, 4)]),
+        ("vector_roundtrip", vec![Op::VPut(0, vec![1, 2, 3]), Op::VPut(1, vec![0, 0, 1]), CK, Op::VDel(0), Op::VPut(2, vec![1, 1, 1]), rb(0), Op::VPut(3, vec![2, 2, 2])]),
+        ("raw_roundtrip", vec![Op::KPut(0, 1, 5, None), Op::KPut(1, 1, 6, None), Op::KPut(2, 5, 7, Some(3)), Op::KPut(2, 6, 7, None), CK, Op::KDel(0, 1), Op::KDel(1, 1), Op::KPut(2, 5, 8, None), Op::KPut(2, 6, 1, Some(2)), rb(0)]),
+        ("drop_then_rollback", vec![Op::RCreate(1), Op::RIns(1, 0, 0), CK, Op::RDrop(1), rb(0), Op::RCreate(1), Op::RDrop(1), Op::RCreate(1), Op::RIns(1, 3, 3)]),
+        ("stale_btree_after_recreate", vec![CK, Op::RCreate(0), Op::RBidx(0), Op::RIns(0, 1, 1), Op::RIns(0, 2, 2), rb(0), Op::RCreate(0), Op::RBidx(0), Op::RIns(0, 3, 0)]),
     ];
     for (name, ops) in cases {
         ctx.rep.hit(&format!("witness:{name}"));
         run_case(ctx, m, "witness", Mode::Router, 10, &ops, &[], true);
     }
+    // target resolution (id or name, newest first), manual delete, CHECKPOINTS LIMIT — the Lean
+    // witnesses of Props, on the real code, with the harness clock
+    let shared = Op::Ckpt(Some(SHARED_NAMES[0]));
+    let by_shared = Op::Rollback(SHARED_NAMES[0]);
+    let kp = |x: i64| Op::KPut(0, 0, x, None);
+    let mcases: Vec<(&str, Vec<Op>, Vec<u64>)> = vec![
+        ("name_picks_newest", vec![kp(1), shared.clone(), kp(2), shared.clone(), kp(3), Op::CkTop(1), by_shared.clone(), by_shared.clone()], vec![5, 6]),
+        ("older_same_name_by_id", vec![kp(1), shared.clone(), kp(2), shared.clone(), kp(3), Op::Rollback(0)], vec![5, 6]),
+        ("id_shadowed_by_name", vec![kp(1), CK, kp(2), Op::Ckpt(Some(0)), kp(3), Op::Rollback(0)], vec![5, 6]),
+        ("delete_then_rollback", vec![kp(1), CK, kp(2), shared.clone(), Op::GNode(1), shared.clone(), Op::CkDel(SHARED_NAMES[0]), Op::CkTop(5), by_shared.clone(), Op::CkDel(7), Op::CkDel(0), rb(0)], vec![5, 6, 7]),
+        ("rollback_by_id_router_style", vec![kp(1), CK, kp(2), CK, Op::Rollback(1), Op::Rollback(0), Op::Rollback(5)], vec![5, 5]),
+    ];
+    for (name, ops, tss) in mcases {
+        ctx.rep.hit(&format!("witness:{name}"));
+        run_case(ctx, m, "witness", Mode::Manager, 10, &ops, &tss, true);
+    }
+    // the router's own ids (uuids): ROLLBACK TO '<uuid>' and delete by uuid
+    ctx.rep.hit("witness:router_uuid_targets");
+    run_case(ctx, m, "witness", Mode::Router, 10, &[kp(1), CK, kp(2), CK, kp(3), Op::CkTop(1), Op::Rollback(0), kp(4), CK, Op::CkDel(2), Op::CkDel(2), Op::Rollback(2)], &[], true);
 }
 
 const TIE_CLASS: &str = "tensor_checkpoint.retention/newer_dropped_on_timestamp_tie";
@@ -972,7 +1221,7 @@ const TIE_CLASS: &str = "tensor_checkpoint.retention/newer_dropped_on_timestamp_
 /// has fired, at most 64 times (all attempts miss with probability 2^-448).
 fn stream_retention_tie_directed(ctx: &mut Ctx, m: &mut Model) {
     let mut ops = vec![Op::KPut(0, 0, 1, None)];
-    ops.extend(std::iter::repeat(Op::Ckpt).take(8));
+    ops.extend(std::iter::repeat(Op::Ckpt(None)).take(8));
     let tss = vec![100u64; 8];
     for _attempt in 0..64 {
         ctx.rep.hit("witness:retention_tie");
@@ -1187,6 +1436,8 @@ fn main() {
     ctx.rep.expected_branches = [
         "op:rcreate", "op:rdrop", "op:rins", "op:rdel", "op:rhidx", "op:rbidx", "op:gnode", "op:gedge", "op:gdeln",
         "op:gdele", "op:vput", "op:vdel", "op:vbuild", "op:kput", "op:kdel", "op:ckpt", "op:rollback",
+        "op:ckpt_named", "op:rollback_by_id", "op:ckdel", "op:cktop", "rollback:id_shadowed_by_name",
+        "rollback:by_shared_or_foreign_name",
         "res:ok", "res:id", "res:count", "res:err notfound", "res:err exists", "res:err storage",
         "retention:tie_at_boundary", "retention:incremental", "retention:bulk", "raw:restore",
         "directed:tensor_store.restore_from_bytes/relational_tables_lost",
@@ -1211,10 +1462,22 @@ fn main() {
         ctx.rep.hit(&format!("directed:{c}"));
     }
     ctx.rep.note(&format!("violation classes reproduced by the directed cases before the seeded streams: {}", directed.join(", ")));
+    let mut lap = t0.elapsed().as_secs_f64();
+    let mut laps: Vec<String> = vec![format!("directed {lap:.1}s")];
+    let mut mark = |name: &str, laps: &mut Vec<String>| {
+        let now = t0.elapsed().as_secs_f64();
+        laps.push(format!("{name} {:.1}s", now - lap));
+        lap = now;
+    };
     stream_router(&mut ctx, &mut m, &rng, 60 * scale, Mode::Router, "router");
+    mark("router", &mut laps);
     stream_router(&mut ctx, &mut m, &rng, 60 * scale, Mode::Manager, "manager");
+    mark("manager", &mut laps);
     stream_retention(&mut ctx, &mut m, &rng, 300 * scale);
+    mark("retention", &mut laps);
     stream_store_raw(&mut ctx, &mut m, &rng, 150 * scale);
+    mark("store_raw", &mut laps);
+    ctx.rep.note(&format!("stream wall times: {}", laps.join(", ")));
     ctx.rep.note(&format!("harness wall time {:.1}s; model lines {}", t0.elapsed().as_secs_f64(), m.lines));
     ctx.rep.note("created_at of router-made checkpoints is wall-clock seconds and cannot be set from outside: the router stream never lets retention trigger (max 10, ≤5 checkpoints); retention with controlled and tied timestamps is exercised through CheckpointStorage::store + RetentionManager::enforce (what CheckpointManager::create calls) in the manager and retention streams");
     ctx.rep.note("the by_tag listing order among equal created_at is a per-call hash order; the model takes it as an input reconstructed from the observed outcome (kept ids first), so a disagreement there means the outcome is not explainable by any order");
